@@ -69,11 +69,16 @@ def generate(rng, tier):
             labels.add("".join(rng.choice(ALPHABET) for _ in range(rng.randrange(1, 6))))
         labels = sorted(labels)
         rng.shuffle(labels)
-    else:
+    elif rng.random() < 0.5:
         labels = rng.sample(range(0, 40), n)
+    elif rng.random() < 0.5:
+        labels = rng.sample(range(1000, 5000), n)  # ints outside the small-int cache
+    else:
+        labels = [list(t) for t in rng.sample([(a, b) for a in range(4) for b in range(4)], n)]  # (row, col) style labels
     order = list(range(n))
     rng.shuffle(order)
-    case = {"fn": fn, "n": n, "adj": adj, "labels": labels, "order": order, "kw": {}}
+    # fresh: the neighbour call-back hands out equal but not identical label objects (labels computed on the fly)
+    case = {"fn": fn, "n": n, "adj": adj, "labels": labels, "order": order, "kw": {}, "fresh": rng.random() < 0.5}
     if fn == "kcore":
         case["kw"] = {"k": rng.randrange(-1, 6)}
     elif fn == "pagerank":
@@ -199,10 +204,21 @@ def modularity(case, parts, resolution):
 def execute(case) -> Outcome:
     o = Outcome()
     budget.install(["solvor.articulation", "solvor.kcore", "solvor.pagerank", "solvor.community"])
-    n, fn, L = case["n"], case["fn"], case["labels"]
+    n, fn = case["n"], case["fn"]
+    L = [tuple(l) if isinstance(l, list) else l for l in case["labels"]]
     idx = {L[i]: i for i in range(n)}
     nodes = [L[i] for i in case["order"]]
     table = {L[u]: [L[v] for v in a] for u, a in enumerate(case["adj"])}
+    if case.get("fresh"):
+        def clone(x):
+            if isinstance(x, str):
+                return (x + "x")[:-1]
+            if isinstance(x, tuple):
+                return tuple(list(x))
+            return int(str(x))
+        lookup = lambda v: [clone(w) for w in table[v]]
+    else:
+        lookup = lambda v: table[v]
     asym = any((u not in case["adj"][v]) for u, a in enumerate(case["adj"]) for v in a if v != u)
     key = dict(target=fn, asymmetric=asym)
     mod = {"articulation_points": "articulation", "bridges": "articulation", "kcore_decomposition": "kcore", "kcore": "kcore",
@@ -211,9 +227,9 @@ def execute(case) -> Outcome:
     try:
         with budget.steps(STEP_LIMIT) as b:
             if fn == "kcore":
-                res = f(nodes, lambda v: table[v], case["kw"]["k"])
+                res = f(nodes, lookup, case["kw"]["k"])
             else:
-                res = f(nodes, lambda v: table[v], **case["kw"])
+                res = f(nodes, lookup, **case["kw"])
     except budget.StepBudgetExceeded:
         o.violate(PROP, "no_return", f"{fn} did not return within {STEP_LIMIT} events", **key)
         return o
@@ -288,5 +304,7 @@ def shrink(case):
                 yield shr.with_path(case, ("adj", u), cand)
     if case["order"] != list(range(n)):
         yield shr.with_path(case, ("order",), list(range(n)))
+    if case.get("fresh"):
+        yield shr.with_path(case, ("fresh",), False)
     if any(isinstance(l, str) for l in case["labels"]) and case["labels"] != [f"n{i}" for i in range(n)]:
         yield shr.with_path(case, ("labels",), [f"n{i}" for i in range(n)])
